@@ -15,6 +15,7 @@ variable {san : Nat → Nat}
 def ph : CPc → Nat
   | .start => 0
   | .returnedNil => 0
+  | .waitWinner => 0
   | .won => 1
   | .doneClosedPc => 2
   | .waited => 3
@@ -43,7 +44,7 @@ structure ThreadsOk (loop : LoopPc) (closers : Nat → CPc) (r : Registry.State)
   appThread : ∀ t, isApp t = true → isPassPc (pcOf r t) = false
 
 structure Ctl (s : State) : Prop where
-  others : ∀ t, s.winner ≠ some t → s.closers t = .start ∨ s.closers t = .returnedNil
+  others : ∀ t, s.winner ≠ some t → s.closers t = .start ∨ s.closers t = .returnedNil ∨ s.closers t = .waitWinner
   wph : ∀ w, s.winner = some w → 1 ≤ ph (s.closers w)
   closed_iff : s.rootClosed = s.winner.isSome
   loopEx : 3 ≤ ph (wpc s) → s.loop = .exited
@@ -53,6 +54,10 @@ structure Ctl (s : State) : Prop where
   logRet : ph (wpc s) = 8 → ∃ n m rest,
     s.log = if s.closable then .reporterClose n :: .flush m :: rest else .flush m :: rest
   rc : countRC s.log = if ph (wpc s) = 8 ∧ s.closable = true then 1 else 0
+  /-- `closeDone` is closed exactly when the winning call has returned (D17) … -/
+  cd_iff : s.closeDone = decide (8 ≤ ph (wpc s))
+  /-- … and a call that lost the CAS has returned only after that -/
+  nil_cd : ∀ t, s.closers t = .returnedNil → s.closeDone = true
 
 theorem wpc_of_winner {s : State} {w : Nat} (h : s.winner = some w) : wpc s = s.closers w := by
   simp [wpc, h]
@@ -60,11 +65,11 @@ theorem wpc_of_winner {s : State} {w : Nat} (h : s.winner = some w) : wpc s = s.
 theorem Ctl.winner_of {s : State} (h : Ctl s) (t : Nat) (hp : 1 ≤ ph (s.closers t)) : s.winner = some t := by
   cases hw : s.winner with
   | none =>
-    rcases h.others t (by rw [hw]; simp) with h1 | h1 <;> rw [h1] at hp <;> simp [ph] at hp
+    rcases h.others t (by rw [hw]; simp) with h1 | h1 | h1 <;> rw [h1] at hp <;> simp [ph] at hp
   | some w =>
     by_cases he : w = t
     · rw [he]
-    · rcases h.others t (by rw [hw]; simpa using he) with h1 | h1 <;> rw [h1] at hp <;> simp [ph] at hp
+    · rcases h.others t (by rw [hw]; simpa using he) with h1 | h1 | h1 <;> rw [h1] at hp <;> simp [ph] at hp
 
 theorem Ctl.no_winner {s : State} (h : Ctl s) (hc : s.rootClosed = false) : s.winner = none := by
   have := h.closed_iff
@@ -94,7 +99,7 @@ theorem not_isApp_closer (c : Nat) : isApp (closerTid c) = false := by
 theorem ctl_init (san : Nat → Nat) (hl cl : Bool) (er : Option Nat) : Ctl (init san hl cl er) := by
   have hidle : ∀ t, pcOf (Registry.initRoot san) t = .idle := fun t => rfl
   have hw : wpc (init san hl cl er) = .start := rfl
-  refine ⟨fun _ _ => Or.inl rfl, fun w h => (by cases h), rfl, ?_, rfl, ?_, ?_, ?_, ?_⟩
+  refine ⟨fun _ _ => Or.inl rfl, fun w h => (by cases h), rfl, ?_, rfl, ?_, ?_, ?_, ?_, rfl, ?_⟩
   · intro h; rw [hw] at h; simp [ph] at h
   · refine ⟨Or.inr ⟨?_, hidle _⟩, fun c => Or.inr ⟨by simp [init], hidle _⟩, fun t _ => ?_⟩
     · simp only [init]; split <;> simp
@@ -102,6 +107,7 @@ theorem ctl_init (san : Nat → Nat) (hl cl : Bool) (er : Option Nat) : Ctl (ini
   · intro h; rw [hw] at h; simp [ph] at h
   · intro h; rw [hw] at h; simp [ph] at h
   · rw [hw]; simp [ph, init, countRC]
+  · intro t ht; simp [init] at ht
 
 /-! ## the thread part under the steps of the shard -/
 
@@ -200,21 +206,24 @@ theorem obtain_pc {r r' : Registry.State} {t k : Nat} (hs : Registry.step san r 
 /-- the control part is unchanged and the thread part is re-established -/
 theorem Ctl.frame {s s' : State} (h : Ctl s) (hw : s'.winner = s.winner) (hc : s'.closers = s.closers)
     (hrc : s'.rootClosed = s.rootClosed) (hl : s'.loop = s.loop) (hp : s'.purged = s.purged) (hlog : s'.log = s.log)
-    (hcl : s'.closable = s.closable) (ht : ThreadsOk s.loop s.closers s'.reg) : Ctl s' := by
+    (hcl : s'.closable = s.closable) (hcd : s'.closeDone = s.closeDone)
+    (ht : ThreadsOk s.loop s.closers s'.reg) : Ctl s' := by
   have hwpc : wpc s' = wpc s := by simp [wpc, hw, hc]
   exact ⟨by rw [hw, hc]; exact h.others, by rw [hw, hc]; exact h.wph, by rw [hrc, hw]; exact h.closed_iff,
     by rw [hwpc, hl]; exact h.loopEx, by rw [hwpc, hp]; exact h.purged_iff, by rw [hl, hc]; exact ht,
-    by rw [hwpc, hlog]; exact h.logFlush, by rw [hwpc, hlog, hcl]; exact h.logRet, by rw [hwpc, hlog, hcl]; exact h.rc⟩
+    by rw [hwpc, hlog]; exact h.logFlush, by rw [hwpc, hlog, hcl]; exact h.logRet, by rw [hwpc, hlog, hcl]; exact h.rc,
+    by rw [hwpc, hcd]; exact h.cd_iff, by rw [hc, hcd]; exact h.nil_cd⟩
 
 /-- a move of the loop alone (it has not exited, so the winner is still before its wait) -/
 theorem Ctl.loopMove {s s' : State} (h : Ctl s) (hne : s.loop ≠ .exited) (hw : s'.winner = s.winner)
     (hc : s'.closers = s.closers) (hrc : s'.rootClosed = s.rootClosed) (hp : s'.purged = s.purged)
-    (hcl : s'.closable = s.closable) (hrcnt : countRC s'.log = countRC s.log)
+    (hcl : s'.closable = s.closable) (hcd : s'.closeDone = s.closeDone) (hrcnt : countRC s'.log = countRC s.log)
     (ht : ThreadsOk s'.loop s.closers s'.reg) : Ctl s' := by
   have hwpc : wpc s' = wpc s := by simp [wpc, hw, hc]
   have hlt : ¬ 3 ≤ ph (wpc s) := fun h3 => hne (h.loopEx h3)
   refine ⟨by rw [hw, hc]; exact h.others, by rw [hw, hc]; exact h.wph, by rw [hrc, hw]; exact h.closed_iff,
-    ?_, by rw [hwpc, hp]; exact h.purged_iff, by rw [hc]; exact ht, ?_, ?_, ?_⟩
+    ?_, by rw [hwpc, hp]; exact h.purged_iff, by rw [hc]; exact ht, ?_, ?_, ?_,
+    by rw [hwpc, hcd]; exact h.cd_iff, by rw [hc, hcd]; exact h.nil_cd⟩
   · rw [hwpc]; intro h3; exact absurd h3 hlt
   · rw [hwpc]; intro h6; omega
   · rw [hwpc]; intro h8; omega
@@ -240,10 +249,11 @@ theorem Ctl.wmove {s s' : State} (h : Ctl s) {t : Nat} (hw : ∀ u, u ≠ t → 
     (ht : ThreadsOk s'.loop s'.closers s'.reg)
     (hlf : 7 ≤ ph p' → ph p' ≤ 7 → ∃ m rest, s'.log = .flush m :: rest)
     (hlr : ph p' = 8 → ∃ n m rest, s'.log = if s'.closable then .reporterClose n :: .flush m :: rest else .flush m :: rest)
-    (hrcnt : countRC s'.log = if ph p' = 8 ∧ s'.closable = true then 1 else 0) : Ctl s' := by
+    (hrcnt : countRC s'.log = if ph p' = 8 ∧ s'.closable = true then 1 else 0)
+    (hold : s.closeDone = false) (hcd : s'.closeDone = decide (8 ≤ ph p')) : Ctl s' := by
   have hwpc : wpc s' = p' := by simp [wpc, hw', hc]
   refine ⟨?_, ?_, by rw [hrc, hw']; rfl, by rw [hwpc]; exact hl, by rw [hwpc]; exact hp, ht,
-    by rw [hwpc]; exact hlf, by rw [hwpc]; exact hlr, by rw [hwpc]; exact hrcnt⟩
+    by rw [hwpc]; exact hlf, by rw [hwpc]; exact hlr, by rw [hwpc]; exact hrcnt, by rw [hwpc]; exact hcd, ?_⟩
   · intro u hu
     have hne : u ≠ t := by intro e; rw [hw', e] at hu; exact hu rfl
     rw [hc]; simp only [hne, if_false]
@@ -251,6 +261,16 @@ theorem Ctl.wmove {s s' : State} (h : Ctl s) {t : Nat} (hw : ∀ u, u ≠ t → 
   · intro w hw2
     rw [hw'] at hw2; cases hw2
     rw [hc]; simpa using hph
+  · intro u hu
+    rw [hc] at hu
+    by_cases he : u = t
+    · simp only [he, if_true] at hu; rw [hu] at hph; simp [ph] at hph
+    · simp only [he, if_false] at hu
+      have := h.nil_cd u hu; rw [hold] at this; cases this
+
+/-- while the winning call has not returned, `closeDone` is still open -/
+theorem Ctl.cd_false {s : State} (h : Ctl s) (hlt : ph (wpc s) < 8) : s.closeDone = false := by
+  rw [h.cd_iff]; exact decide_eq_false (by omega)
 
 
 @[simp] theorem setC_reg (s : State) (t : Nat) (p : CPc) : (setC s t p).reg = s.reg := rfl
@@ -264,6 +284,7 @@ theorem Ctl.wmove {s s' : State} (h : Ctl s) {t : Nat} (hw : ∀ u, u ≠ t → 
 @[simp] theorem setC_preRoot (s : State) (t : Nat) (p : CPc) : (setC s t p).preRoot = s.preRoot := rfl
 @[simp] theorem setC_snap (s : State) (t : Nat) (p : CPc) : (setC s t p).snap = s.snap := rfl
 @[simp] theorem setC_winner (s : State) (t : Nat) (p : CPc) : (setC s t p).winner = s.winner := rfl
+@[simp] theorem setC_closeDone (s : State) (t : Nat) (p : CPc) : (setC s t p).closeDone = s.closeDone := rfl
 theorem setC_closers (s : State) (t : Nat) (p : CPc) :
     (setC s t p).closers = fun u => if u = t then p else s.closers u := rfl
 
@@ -280,7 +301,7 @@ theorem ctl_step {s s' : State} {e : Ev} (h : Ctl s) (hs : step san s e = some s
     · cases hs
     · next r hr =>
       cases hs
-      exact h.frame rfl rfl rfl rfl rfl rfl rfl (h.threads.app hr (fun t ha => by cases ha))
+      exact h.frame rfl rfl rfl rfl rfl rfl rfl rfl (h.threads.app hr (fun t ha => by cases ha))
   | close sid =>
     simp only [step, regStep] at hs
     split at hs
@@ -289,7 +310,7 @@ theorem ctl_step {s s' : State} {e : Ev} (h : Ctl s) (hs : step san s e = some s
       · cases hs
       · next r hr =>
         cases hs
-        exact h.frame rfl rfl rfl rfl rfl rfl rfl (h.threads.app hr (fun t ha => by cases ha))
+        exact h.frame rfl rfl rfl rfl rfl rfl rfl rfl (h.threads.app hr (fun t ha => by cases ha))
   | obtain t k =>
     simp only [step, regStep] at hs
     split at hs
@@ -299,7 +320,7 @@ theorem ctl_step {s s' : State} {e : Ev} (h : Ctl s) (hs : step san s e = some s
       · next r hr =>
         cases hs
         simp only [Bool.and_eq_true] at hc
-        refine h.frame rfl rfl rfl rfl rfl rfl rfl (h.threads.app hr ?_)
+        refine h.frame rfl rfl rfl rfl rfl rfl rfl rfl (h.threads.app hr ?_)
         intro t' ha; cases ha
         exact ⟨hc.1, by rw [obtain_pc hr]; rfl⟩
     · cases hs
@@ -311,7 +332,7 @@ theorem ctl_step {s s' : State} {e : Ev} (h : Ctl s) (hs : step san s e = some s
       · cases hs
       · next r hr =>
         cases hs
-        refine h.frame rfl rfl rfl rfl rfl rfl rfl (h.threads.app hr ?_)
+        refine h.frame rfl rfl rfl rfl rfl rfl rfl rfl (h.threads.app hr ?_)
         intro t' ha; cases ha
         exact ⟨hc, Registry.step_obt_kind hr (h.threads.appThread t hc)⟩
     · cases hs
@@ -320,7 +341,7 @@ theorem ctl_step {s s' : State} {e : Ev} (h : Ctl s) (hs : step san s e = some s
     split at hs
     · next hl =>
       cases hs
-      exact h.loopMove (by rw [hl]; simp) rfl rfl rfl rfl rfl rfl (h.threads.setLoop (by rw [hl]; simp) (by simp))
+      exact h.loopMove (by rw [hl]; simp) rfl rfl rfl rfl rfl rfl rfl (h.threads.setLoop (by rw [hl]; simp) (by simp))
     · cases hs
   | exit =>
     simp only [step] at hs
@@ -328,7 +349,7 @@ theorem ctl_step {s s' : State} {e : Ev} (h : Ctl s) (hs : step san s e = some s
     · next hl =>
       split at hs
       · cases hs
-        exact h.loopMove (by rw [hl]; simp) rfl rfl rfl rfl rfl rfl (h.threads.setLoop (by rw [hl]; simp) (by simp))
+        exact h.loopMove (by rw [hl]; simp) rfl rfl rfl rfl rfl rfl rfl (h.threads.setLoop (by rw [hl]; simp) (by simp))
       · cases hs
     · cases hs
   | loop c =>
@@ -336,13 +357,13 @@ theorem ctl_step {s s' : State} {e : Ev} (h : Ctl s) (hs : step san s e = some s
     split at hs
     · next hl =>
       split at hs <;> cases hs <;>
-        exact h.loopMove (by rw [hl]; simp) rfl rfl rfl rfl rfl rfl (h.threads.setLoop (by rw [hl]; simp) (by simp))
+        exact h.loopMove (by rw [hl]; simp) rfl rfl rfl rfl rfl rfl rfl (h.threads.setLoop (by rw [hl]; simp) (by simp))
     · next hl =>
       split at hs
       · cases hs
       · next r hr =>
         cases hs
-        exact h.loopMove (by rw [hl]; simp) rfl rfl rfl rfl rfl rfl
+        exact h.loopMove (by rw [hl]; simp) rfl rfl rfl rfl rfl rfl rfl
           (h.threads.loopStep hr rfl (Or.inl ⟨rfl, by rw [passBegin_pc hr]; rfl⟩))
     · next hl =>
       simp only [regStep] at hs
@@ -354,12 +375,12 @@ theorem ctl_step {s s' : State} {e : Ev} (h : Ctl s) (hs : step san s e = some s
           rcases h.threads.loopThread with ⟨_, h2⟩ | ⟨h1, _⟩
           · exact h2
           · exact absurd hl h1
-        refine h.loopMove (by rw [hl]; simp) rfl rfl rfl rfl rfl rfl ?_
+        refine h.loopMove (by rw [hl]; simp) rfl rfl rfl rfl rfl rfl rfl ?_
         show ThreadsOk s.loop s.closers r
         exact h.threads.loopStep hr rfl (Or.inl ⟨hl, (Registry.step_pass_kind hr hp).1⟩)
     · next hl =>
       cases hs
-      exact h.loopMove (by rw [hl]; simp) rfl rfl rfl rfl rfl rfl (h.threads.setLoop (by rw [hl]; simp) (by simp))
+      exact h.loopMove (by rw [hl]; simp) rfl rfl rfl rfl rfl rfl rfl (h.threads.setLoop (by rw [hl]; simp) (by simp))
     · cases hs
   | loopEnd =>
     simp only [step] at hs
@@ -369,7 +390,7 @@ theorem ctl_step {s s' : State} {e : Ev} (h : Ctl s) (hs : step san s e = some s
       · cases hs
       · next r hr =>
         cases hs
-        exact h.loopMove (by rw [hl]; simp) rfl rfl rfl rfl rfl rfl
+        exact h.loopMove (by rw [hl]; simp) rfl rfl rfl rfl rfl rfl rfl
           (h.threads.loopStep hr rfl (Or.inr ⟨by simp, passEnd_pc hr⟩))
     · cases hs
   | closer t c =>
@@ -382,17 +403,22 @@ theorem ctl_step {s s' : State} {e : Ev} (h : Ctl s) (hs : step san s e = some s
         cases hs
         have hnw : s.winner ≠ some t := by
           intro e; have := h.wph t e; rw [hpc] at this; simp [ph] at this
-        have hwpc : wpc (setC s t .returnedNil) = wpc s := wpc_setC_other hnw
+        have hwpc : wpc (setC s t .waitWinner) = wpc s := wpc_setC_other hnw
         refine ⟨?_, ?_, h.closed_iff, by rw [hwpc]; exact h.loopEx, by rw [hwpc]; exact h.purged_iff,
           h.threads.setC (fun _ => rfl) t _ (by rw [hpc]; simp) (by simp),
-          by rw [hwpc]; exact h.logFlush, by rw [hwpc]; exact h.logRet, by rw [hwpc]; exact h.rc⟩
+          by rw [hwpc]; exact h.logFlush, by rw [hwpc]; exact h.logRet, by rw [hwpc]; exact h.rc,
+          by rw [hwpc]; exact h.cd_iff, ?_⟩
         · intro u hu
           by_cases he : u = t
-          · subst he; right; simp [setC]
+          · subst he; right; right; simp [setC]
           · simp only [setC, he, if_false]; exact h.others u hu
         · intro w hw
           have : w ≠ t := by intro e; rw [e] at hw; exact hnw hw
           simp only [setC, this, if_false]; exact h.wph w hw
+        · intro u hu
+          by_cases he : u = t
+          · subst he; simp [setC] at hu
+          · simp only [setC, he, if_false] at hu; exact h.nil_cd u hu
       · next hclosed =>
         split at hs
         · cases hs
@@ -402,13 +428,16 @@ theorem ctl_step {s s' : State} {e : Ev} (h : Ctl s) (hs : step san s e = some s
           have hw0 : wpc s = .start := by simp [wpc, hno]
           have hrc0 := h.rc
           rw [hw0] at hrc0
+          have hcdf : s.closeDone = false := h.cd_false (by rw [hw0]; simp [ph])
           refine h.wmove (t := t) (fun u _ => by rw [hno]; simp) .won rfl rfl (by simp [ph]) rfl
-            (by simp [ph]) ?_ ?_ (by simp [ph]) (by simp [ph]) (by simpa [ph] using hrc0)
+            (by simp [ph]) ?_ ?_ (by simp [ph]) (by simp [ph]) (by simpa [ph] using hrc0) hcdf
+            (by simpa [ph] using hcdf)
           · have := h.purged_iff; rw [hw0] at this; simpa [ph] using this
           · exact (h.threads.app hr (fun t ha => by cases ha)).setC (fun _ => rfl) t _ (by rw [hpc]; simp) (by simp)
     · next hpc =>
       cases hs
       have hw := h.winner_of t (by rw [hpc]; simp [ph])
+      have hcdf : s.closeDone = false := h.cd_false (by rw [wpc_of_winner hw, hpc]; simp [ph])
       have hrcl : s.rootClosed = true := by rw [h.closed_iff, hw]; rfl
       have hrc0 := h.rc
       rw [wpc_of_winner hw, hpc] at hrc0
@@ -417,11 +446,13 @@ theorem ctl_step {s s' : State} {e : Ev} (h : Ctl s) (hs : step san s e = some s
       refine h.wmove (winner_only hw) .doneClosedPc hw rfl (by simp [ph]) hrcl (by simp [ph]) (by simpa [ph] using hpu)
         (h.threads.setC (fun _ => rfl) t _ (by rw [hpc]; simp) (by simp)) (by simp [ph]) (by simp [ph])
         (by simpa [ph] using hrc0)
+        hcdf (by simpa [ph] using hcdf)
     · next hpc =>
       split at hs
       · next hex =>
         cases hs
         have hw := h.winner_of t (by rw [hpc]; simp [ph])
+        have hcdf : s.closeDone = false := h.cd_false (by rw [wpc_of_winner hw, hpc]; simp [ph])
         have hrcl : s.rootClosed = true := by rw [h.closed_iff, hw]; rfl
         have hrc0 := h.rc
         rw [wpc_of_winner hw, hpc] at hrc0
@@ -430,6 +461,7 @@ theorem ctl_step {s s' : State} {e : Ev} (h : Ctl s) (hs : step san s e = some s
         refine h.wmove (winner_only hw) .waited hw rfl (by simp [ph]) hrcl (fun _ => hex) (by simpa [ph] using hpu)
           (h.threads.setC (fun _ => rfl) t _ (by rw [hpc]; simp) (by simp)) (by simp [ph]) (by simp [ph])
           (by simpa [ph] using hrc0)
+          hcdf (by simpa [ph] using hcdf)
       · cases hs
     · next hpc =>
       split at hs
@@ -437,6 +469,7 @@ theorem ctl_step {s s' : State} {e : Ev} (h : Ctl s) (hs : step san s e = some s
       · next r hr =>
         cases hs
         have hw := h.winner_of t (by rw [hpc]; simp [ph])
+        have hcdf : s.closeDone = false := h.cd_false (by rw [wpc_of_winner hw, hpc]; simp [ph])
         have hrcl : s.rootClosed = true := by rw [h.closed_iff, hw]; rfl
         have hrc0 := h.rc
         rw [wpc_of_winner hw, hpc] at hrc0
@@ -446,6 +479,7 @@ theorem ctl_step {s s' : State} {e : Ev} (h : Ctl s) (hs : step san s e = some s
         refine h.wmove (winner_only hw) .pass hw rfl (by simp [ph]) hrcl (fun _ => hex) (by simpa [ph] using hpu)
           (h.threads.closerStep hr t .pass rfl (Or.inl ⟨rfl, by rw [passBegin_pc hr]; rfl⟩)) (by simp [ph]) (by simp [ph])
           (by simpa [ph] using hrc0)
+          hcdf (by simpa [ph] using hcdf)
     · next hpc =>
       simp only [regStep] at hs
       split at hs
@@ -460,7 +494,7 @@ theorem ctl_step {s s' : State} {e : Ev} (h : Ctl s) (hs : step san s e = some s
           funext u; by_cases he : u = t
           · subst he; simp [hpc]
           · simp [he]
-        refine h.frame rfl rfl rfl rfl rfl rfl rfl ?_
+        refine h.frame rfl rfl rfl rfl rfl rfl rfl rfl ?_
         show ThreadsOk s.loop s.closers r
         rw [← hfun]
         exact h.threads.closerStep hr t .pass rfl (Or.inl ⟨rfl, (Registry.step_pass_kind hr hp).1⟩)
@@ -469,6 +503,7 @@ theorem ctl_step {s s' : State} {e : Ev} (h : Ctl s) (hs : step san s e = some s
       split at hs
       · cases hs
         have hw := h.winner_of t (by rw [hpc]; simp [ph])
+        have hcdf : s.closeDone = false := h.cd_false (by rw [wpc_of_winner hw, hpc]; simp [ph])
         have hrcl : s.rootClosed = true := by rw [h.closed_iff, hw]; rfl
         have hrc0 := h.rc
         rw [wpc_of_winner hw, hpc] at hrc0
@@ -476,11 +511,13 @@ theorem ctl_step {s s' : State} {e : Ev} (h : Ctl s) (hs : step san s e = some s
         refine h.wmove (winner_only hw) .flushPc hw rfl (by simp [ph]) hrcl (fun _ => hex) (by simp [ph])
           (ThreadsOk.setC (r' := purgeReg s.reg) h.threads (fun _ => rfl) t .flushPc (by rw [hpc]; simp) (by simp))
           (by simp [ph]) (by simp [ph]) (by simpa [ph] using hrc0)
+          hcdf (by simpa [ph] using hcdf)
       · cases hs
     · next hpc =>
       -- the final flush (after the purge)
       cases hs
       have hw := h.winner_of t (by rw [hpc]; simp [ph])
+      have hcdf : s.closeDone = false := h.cd_false (by rw [wpc_of_winner hw, hpc]; simp [ph])
       have hrcl : s.rootClosed = true := by rw [h.closed_iff, hw]; rfl
       have hrc0 := h.rc
       rw [wpc_of_winner hw, hpc] at hrc0
@@ -490,8 +527,10 @@ theorem ctl_step {s s' : State} {e : Ev} (h : Ctl s) (hs : step san s e = some s
       refine h.wmove (winner_only hw) .reporterClose hw rfl (by simp [ph]) hrcl (fun _ => hex) (by simpa [ph] using hpu)
         (h.threads.setC (fun _ => rfl) t _ (by rw [hpc]; simp) (by simp)) (fun _ _ => ⟨_, _, rfl⟩) (by simp [ph])
         (by simpa [ph, countRC] using hrc0)
+        hcdf (by simpa [ph] using hcdf)
     · next hpc =>
       have hw := h.winner_of t (by rw [hpc]; simp [ph])
+      have hcdf : s.closeDone = false := h.cd_false (by rw [wpc_of_winner hw, hpc]; simp [ph])
       have hrcl : s.rootClosed = true := by rw [h.closed_iff, hw]; rfl
       have hrc0 := h.rc
       rw [wpc_of_winner hw, hpc] at hrc0
@@ -504,6 +543,7 @@ theorem ctl_step {s s' : State} {e : Ev} (h : Ctl s) (hs : step san s e = some s
         cases hs
         refine h.wmove (winner_only hw) (.returned s.err) hw rfl (by simp [ph]) hrcl (fun _ => hex)
           (by simpa [ph] using hpu) (h.threads.setC (fun _ => rfl) t _ (by rw [hpc]; simp) (by simp)) (by simp [ph]) ?_ ?_
+          hcdf (by simp [ph])
         · intro _
           refine ⟨s.reg.delivered.length, m, rest, ?_⟩
           show LogEv.reporterClose s.reg.delivered.length :: s.log = if s.closable then _ else _
@@ -515,6 +555,7 @@ theorem ctl_step {s s' : State} {e : Ev} (h : Ctl s) (hs : step san s e = some s
         cases hs
         refine h.wmove (winner_only hw) (.returned none) hw rfl (by simp [ph]) hrcl (fun _ => hex)
           (by simpa [ph] using hpu) (h.threads.setC (fun _ => rfl) t _ (by rw [hpc]; simp) (by simp)) (by simp [ph]) ?_ ?_
+          hcdf (by simp [ph])
         · intro _
           refine ⟨0, m, rest, ?_⟩
           show s.log = if s.closable then _ else _
@@ -526,6 +567,26 @@ theorem ctl_step {s s' : State} {e : Ev} (h : Ctl s) (hs : step san s e = some s
           simp [h0, hcl']
     · cases hs
     · cases hs
+    · next hpc =>
+      -- `<-s.closeDone`: enabled once the winning call has returned; the losing call returns nil
+      split at hs
+      · next hcd =>
+        cases hs
+        have hnw : s.winner ≠ some t := by
+          intro e; have := h.wph t e; rw [hpc] at this; simp [ph] at this
+        have hwpc : wpc (setC s t .returnedNil) = wpc s := wpc_setC_other hnw
+        refine ⟨?_, ?_, h.closed_iff, by rw [hwpc]; exact h.loopEx, by rw [hwpc]; exact h.purged_iff,
+          h.threads.setC (fun _ => rfl) t _ (by rw [hpc]; simp) (by simp),
+          by rw [hwpc]; exact h.logFlush, by rw [hwpc]; exact h.logRet, by rw [hwpc]; exact h.rc,
+          by rw [hwpc]; exact h.cd_iff, fun _ _ => hcd⟩
+        · intro u hu
+          by_cases he : u = t
+          · subst he; right; left; simp [setC]
+          · simp only [setC, he, if_false]; exact h.others u hu
+        · intro w hw
+          have : w ≠ t := by intro e; rw [e] at hw; exact hnw hw
+          simp only [setC, this, if_false]; exact h.wph w hw
+      · cases hs
   | closerEnd t =>
     simp only [step] at hs
     split at hs
@@ -536,6 +597,7 @@ theorem ctl_step {s s' : State} {e : Ev} (h : Ctl s) (hs : step san s e = some s
         · next r hr =>
           cases hs
           have hw := h.winner_of t (by rw [hpc]; simp [ph])
+          have hcdf : s.closeDone = false := h.cd_false (by rw [wpc_of_winner hw, hpc]; simp [ph])
           have hrcl : s.rootClosed = true := by rw [h.closed_iff, hw]; rfl
           have hrc0 := h.rc
           rw [wpc_of_winner hw, hpc] at hrc0
@@ -545,6 +607,7 @@ theorem ctl_step {s s' : State} {e : Ev} (h : Ctl s) (hs : step san s e = some s
           refine h.wmove (winner_only hw) .purgePc hw rfl (by simp [ph]) hrcl (fun _ => hex) (by simpa [ph] using hpu)
             (h.threads.closerStep hr t .purgePc rfl (Or.inr ⟨by simp, passEnd_pc hr⟩)) (by simp [ph]) (by simp [ph])
             (by simpa [ph] using hrc0)
+            hcdf (by simpa [ph] using hcdf)
       · cases hs
     · cases hs
 
